@@ -2,7 +2,8 @@
    Entry-level model (Model/Slpp.v) + the tar block layout tar::Builder writes (tar_bytes). *)
 From Coq Require Import List NArith Bool.
 From Coq.Strings Require Import Byte.
-From Peppi Require Import Base.Bytes Base.Outcome Gen.Funs Model.Ubjson Model.Start Model.Parse Model.Reader Model.Slpp Proofs.SlppProof.
+From Peppi Require Import Base.Bytes Base.Outcome Gen.Funs Gen.SlppEntries Model.Ubjson Model.Start Model.Json Model.Parse Model.Reader Model.Slpp
+  Proofs.SlppProof Proofs.SlppLayout.
 Import ListNotations.
 
 (* entry order and presence conditions *)
@@ -46,9 +47,28 @@ Proof. exact slpp_old_version_rejected. Qed.
 Theorem C18_min_version : PEPPI_MIN_VERSION = (2, 0, 0)%N /\ PEPPI_CURRENT_VERSION = (2, 0, 0)%N.
 Proof. split; reflexivity. Qed.
 
+(* ---- the same, THROUGH THE TABLES REGENERATED FROM THE SOURCE on this run (Gen/SlppEntries.v: the sequence of
+   tar_append calls of src/io/peppi/ser.rs write with their `if let` guards, and the file-name match arms of
+   src/io/peppi/de.rs read with the arm that breaks out of the loop) ---- *)
+Theorem C18_written_entries_from_source : forall enc_peppi enc_meta enc_start enc_end enc_frames c g es,
+  slpp_write enc_peppi enc_meta enc_start enc_end enc_frames c g = Ok es ->
+  map fst es = written_names (is_some (g_end (sg_game g))) (is_some (g_gecko (sg_game g))).
+Proof. exact slpp_write_entries_from_source. Qed.
+(* the reader model dispatches on exactly the names of the source's match, each to the variable the arm assigns *)
+Theorem C18_read_names_from_source : forall p, kind_of p = kind_of_tbl slpp_read_targets p.
+Proof. exact slpp_read_names_from_source. Qed.
+(* the entry the reader stops at is the last one the writer emits *)
+Theorem C18_last_entry_from_source : forall enc_peppi enc_meta enc_start enc_end enc_frames c g es,
+  slpp_write enc_peppi enc_meta enc_start enc_end enc_frames c g = Ok es ->
+  map (fun x => sb (fst x)) (filter snd slpp_read_names) = [last (map fst es) []].
+Proof. exact slpp_last_entry_from_source. Qed.
+
 Print Assumptions C18_entry_order.
 Print Assumptions C18_entries_consistent.
 Print Assumptions C18_signature_at_offset_0.
 Print Assumptions C18_unknown_ignored.
 Print Assumptions C18_old_version_rejected.
 Print Assumptions C18_min_version.
+Print Assumptions C18_written_entries_from_source.
+Print Assumptions C18_read_names_from_source.
+Print Assumptions C18_last_entry_from_source.
